@@ -84,7 +84,7 @@ func localClass(l string) string {
 	return strings.Join(cs, "+")
 }
 
-var c05APICalls = []string{"Hello(arg)", "Mail(arg)", "Rcpt(arg)", "Verify(arg)", "Noop", "Reset", "Extension", "Quit", "Mail(ok)", "Rcpt(ok)"}
+var c05APICalls = []string{"Hello(arg)", "Mail(arg)", "Rcpt(arg)", "Verify(arg)", "Noop", "Reset", "Extension", "Quit", "Mail(ok)", "Rcpt(ok)", "SetDSNRcptNotifyOption(SUCCESS,FAILURE)", "SetDSNMailReturnOption(FULL)"}
 
 // c05ExecAPI drives smtp.Client directly: every call sequence over the exported methods with one hostile argument.
 func c05ExecAPI(r *vf.Run, k c05Case) []finding {
@@ -118,6 +118,10 @@ func c05ExecAPI(r *vf.Run, k c05Case) []finding {
 				_ = cl.Mail("sender@snd.example")
 			case "Rcpt(ok)":
 				_ = cl.Rcpt("rcpt@rcp.example")
+			case "SetDSNRcptNotifyOption(SUCCESS,FAILURE)":
+				cl.SetDSNRcptNotifyOption("SUCCESS,FAILURE")
+			case "SetDSNMailReturnOption(FULL)":
+				cl.SetDSNMailReturnOption("FULL")
 			}
 		}
 		_ = cl.Close()
@@ -337,7 +341,7 @@ func init() {
 	vf.Register(&vf.Check{
 		ID: "C05", Title: "envelope addresses and command lines cannot be smuggled",
 		Run: func(r *vf.Run) {
-			r.SetRule("local parts: ALL strings of length 1..L over {a . SP < > @ , ; : \\ \" ü ( +} offered bare and as quoted-string × domain {example.com, [192.0.2.1]} (thorough: length 4 for From and To), 13 non-ASCII code points of different Unicode classes (NBSP, soft hyphen, NEL, ZWJ, line separator, ideographic space, BOM, combining, private use, astral, U+FFFD, U+10FFFF) between all pairs over {a SP \" \\ .}; and local parts of 30 / 63 / 64 / 65 / 66 / 100 / 255 octets with every alphabet symbol near the start, in the middle and at the end × setter {From, EnvelopeFrom, To, Cc, Bcc, FromFormat, AddToFormat, AddBccFormat} × {no DSN options, DSN return/notify parameters on the command lines}; 16 domain forms (UTF-8 and punycode labels, trailing dot, empty label, IPv4/IPv6 literals incl. an invalid one, leading/trailing hyphen, '%', 255 octets, '>' and a smuggled parameter) × 3 local parts × all setters; HELO names {plain, blank inside, CRLF + command, TAB, UTF-8, 300 chars, empty label}; user names/passwords over a hostile alphabet for PLAIN/LOGIN/CRAM-MD5/XOAUTH2/SCRAM; all 16 DSN option combinations; DSN option VALUES as caller-supplied strings (keywords with padding, CR/LF, other case, lists, junk) for NOTIFY and RET, and every ordered selection of 1..3 valid NOTIFY keywords; smtp.Client used directly: all call sequences of length 1..3 over {Hello, Mail, Rcpt, Verify with a hostile argument, Noop, Reset, Extension, Quit, Mail/Rcpt with a good argument} × 9 hostile arguments; every command line the client writes is judged by the strict RFC 5321 parser of the reference server and the parsed path must denote the mailbox the caller set (own RFC 5322 dot-atom/quoted-string reading of the input); distinct by case tuple")
+			r.SetRule("local parts: ALL strings of length 1..L over {a . SP < > @ , ; : \\ \" ü ( +} offered bare and as quoted-string × domain {example.com, [192.0.2.1]} (thorough: length 4 for From and To), 13 non-ASCII code points of different Unicode classes (NBSP, soft hyphen, NEL, ZWJ, line separator, ideographic space, BOM, combining, private use, astral, U+FFFD, U+10FFFF) between all pairs over {a SP \" \\ .}; and local parts of 30 / 63 / 64 / 65 / 66 / 100 / 255 octets with every alphabet symbol near the start, in the middle and at the end × setter {From, EnvelopeFrom, To, Cc, Bcc, FromFormat, AddToFormat, AddBccFormat} × {no DSN options, DSN return/notify parameters on the command lines}; 16 domain forms (UTF-8 and punycode labels, trailing dot, empty label, IPv4/IPv6 literals incl. an invalid one, leading/trailing hyphen, '%', 255 octets, '>' and a smuggled parameter) × 3 local parts × all setters; HELO names {plain, blank inside, CRLF + command, TAB, UTF-8, 300 chars, empty label}; user names/passwords over a hostile alphabet for PLAIN/LOGIN/CRAM-MD5/XOAUTH2/SCRAM; all 16 DSN option combinations; DSN option VALUES as caller-supplied strings (keywords with padding, CR/LF, other case, lists, junk) for NOTIFY and RET, and every ordered selection of 1..3 valid NOTIFY keywords; smtp.Client used directly: all call sequences of length 1..3 over {Hello, Mail, Rcpt, Verify with a hostile argument, Noop, Reset, Extension, Quit, Mail/Rcpt with a good argument, the two DSN option setters} × 9 hostile arguments; every command line the client writes is judged by the strict RFC 5321 parser of the reference server and the parsed path must denote the mailbox the caller set (own RFC 5322 dot-atom/quoted-string reading of the input); distinct by case tuple")
 			r.Assume("a bare local part that is not an RFC 5322 dot-atom has no defined mailbox: only the line discipline is judged for it", "SMTPUTF8 is advertised so that UTF-8 local parts are legal on the wire")
 			L := 3
 			var cases []c05Case
